@@ -65,6 +65,42 @@ def _construct(case):
     elif k == "tet":
         g = pp.StructuredTetrahedralGrid(np.array(case["dims"]))
         lo, hi = [0.0] * 3, [float(n) for n in case["dims"]]
+    elif k == "tetmerge":
+        # polyhedra with only triangular faces: neighbouring tetrahedra merged into groups
+        # (bipyramids, prisms with split quadrilaterals, ...): cell_faces @ partition, interior
+        # faces dropped, wrapped by the public constructor
+        import random as _r
+        t = pp.StructuredTetrahedralGrid(np.array(case["dims"]))
+        rng = _r.Random(case["merge_seed"])
+        cfm = sps.csc_matrix(t.cell_faces)
+        nbr = (abs(cfm).T @ abs(cfm)).tolil()
+        group = -np.ones(t.num_cells, dtype=int)
+        ng = 0
+        order = list(range(t.num_cells))
+        rng.shuffle(order)
+        for c in order:
+            if group[c] >= 0:
+                continue
+            group[c] = ng
+            members = [c]
+            want = rng.choice(case["sizes"])
+            while len(members) < want:
+                cand = [int(j) for m in members for j in nbr.rows[m] if group[j] < 0]
+                if not cand:
+                    break
+                j = rng.choice(cand)
+                group[j] = ng
+                members.append(j)
+            ng += 1
+        P = sps.csc_matrix((np.ones(t.num_cells, dtype=int), (np.arange(t.num_cells), group)),
+                           shape=(t.num_cells, ng))
+        cf2 = sps.csc_matrix(cfm @ P)
+        cf2.eliminate_zeros()
+        keep = np.where(np.diff(cf2.tocsr().indptr) > 0)[0]
+        cf2 = sps.csc_matrix(cf2.tocsr()[keep, :])
+        fn2 = sps.csc_matrix(t.face_nodes[:, keep])
+        g = pp.Grid(3, t.nodes.copy(), fn2, cf2, "merged tetrahedra")
+        lo, hi = [0.0] * 3, [float(n) for n in case["dims"]]
     else:
         raise ValueError(k)
     return g, [F(x) for x in lo], [F(x) for x in hi]
@@ -164,7 +200,7 @@ class C19(Prop):
         "code's area-weighted face centres; an executable check of these hypotheses is proved sound "
         "and evaluated by Coq on every cell of every real 3-D grid of the tie.  Tie: Coq recomputes "
         "areas^2, face centres, normals, volumes, cell centres of real Cartesian / tensor / triangle "
-        "/ tetrahedral grids in 1-D, 2-D and 3-D (all CartGrid constructor forms, dyadic "
+        "/ tetrahedral / merged-tetrahedra (triangular-faced polyhedra) grids in 1-D, 2-D and 3-D (all CartGrid constructor forms, dyadic "
         "perturbations, frusta, power-of-two rescalings 2^-20..2^10 incl. thin layers, reversed face "
         "orientation -> fallback decision) in Q and compares at relative tolerance 1e-9 at the "
         "grid's own scale.  Perturbed hexahedra (twisted faces) are covered by the exact-fractions "
@@ -190,7 +226,10 @@ class C19(Prop):
             "in 1-D) and TensorGrid (dyadic spacings) in 1-3-D, checked against the REQUESTED box (node "
             "span, sum of volumes); exact rescaling of the node coordinates by powers of two 2^-20..2^10, "
             "isotropic and anisotropic (thin layers), in 1-D, 2-D and 3-D; StructuredTriangleGrid, "
-            "StructuredTetrahedralGrid; 3-D boxes tapered to frusta (planar faces, no central symmetry); "
+            "StructuredTetrahedralGrid; polyhedra with only triangular faces (neighbouring tetrahedra merged "
+            "into groups of 1-4: bipyramids, prisms with split quadrilaterals; cell_faces @ partition "
+            "through the public pp.Grid constructor; non-star-shaped unions must be rejected by code and "
+            "model alike); 3-D boxes tapered to frusta (planar faces, no central symmetry); "
             "node perturbations by dyadic offsets (< 1/4 of the smallest "
             "spacing) of interior nodes (domain measure preserved) or of all nodes; 2-D stream with "
             "reversed node order on some faces (orientation check fails -> legacy branch); two-island "
@@ -264,13 +303,17 @@ class C19(Prop):
                         xs.append(xs[-1] + rng.choice(hs))
                     cs.append(xs)
                 case = {"kind": "tensor", "coords": cs}
-            else:
+            elif r < 0.95:
                 case = {"kind": "tet", "dims": [rng.randint(1, 2), rng.randint(1, 2), rng.randint(1, 2)]}
+            else:
+                case = {"kind": "tetmerge", "dims": [rng.randint(1, 2), rng.randint(1, 2), 1],
+                        "merge_seed": rng.randint(0, 10 ** 6),
+                        "sizes": rng.choice([[2], [2, 3], [1, 2, 3], [3], [2, 4]])}
             nd = len(case.get("dims", case.get("coords", [])))
             case["perturb"] = rng.choice(["none", "interior", "interior", "all"])
             if case["kind"] == "two_islands":
                 case["perturb"] = "none"
-            if case["kind"] != "tet" and nd == 3 and rng.random() < 0.6:
+            if case["kind"] not in ("tet", "tetmerge") and nd == 3 and rng.random() < 0.6:
                 case["perturb"] = "none"
                 case["taper"] = True
             # smallest spacing is 1/2; offsets are multiples of 1/64 with |.| <= 7/64 < 1/8
@@ -285,7 +328,7 @@ class C19(Prop):
             # (non-planar faces) are only rescaled isotropically: the sub-tetrahedron
             # decomposition of twisted faces is not affine invariant.
             sm = rng.random()
-            twisted = nd == 3 and case["kind"] != "tet" and case["perturb"] != "none"
+            twisted = nd == 3 and case["kind"] not in ("tet", "tetmerge") and case["perturb"] != "none"
             if sm < 0.2:
                 case["scale_exp"] = [0, 0, 0]
             elif sm < 0.55 or twisted:
@@ -310,9 +353,23 @@ class C19(Prop):
     # ------------------------------------------------------------------ implementation
     def run_impl(self, case):
         g, measure, req = build(case)
-        with warnings.catch_warnings(record=True) as w:
-            warnings.simplefilter("always")
-            g.compute_geometry()
+        try:
+            with warnings.catch_warnings(record=True) as w:
+                warnings.simplefilter("always")
+                g.compute_geometry()
+        except ValueError as e:
+            # merged polyhedra that are not star-shaped w.r.t. their temporary centre are rejected
+            # by the code ("Some tetrahedra have negative volume"): an invalid grid, not a finding;
+            # the model must reject it too
+            if g.dim != 3 or case["kind"] != "tetmerge" or "negative volume" not in str(e):
+                raise
+            cf = sps.coo_matrix(g.cell_faces)
+            self.stats["dim3_rejected"] = self.stats.get("dim3_rejected", 0) + 1
+            return {"dim": 3, "nc": int(g.num_cells), "nf": int(g.num_faces), "raised": True,
+                    "nodes": g.nodes.T.tolist(),
+                    "fn_indices": [int(x) for x in g.face_nodes.indices],
+                    "fn_indptr": [int(x) for x in g.face_nodes.indptr],
+                    "cf": [[int(r), int(c), int(v)] for r, c, v in zip(cf.row, cf.col, cf.data)]}
         fallback = any("Orientations are inconsistent" in str(x.message) for x in w)
         # a second call recomputes the same geometry (no state carried over, also after the
         # in-place normal flips of the legacy branch)
@@ -353,6 +410,11 @@ class C19(Prop):
 
     # ------------------------------------------------------------------ oracle
     def oracle(self, case, res):
+        if res.get("raised"):
+            return None
+        return self._oracle(case, res)
+
+    def _oracle(self, case, res):
         """All comparisons are relative to the magnitude of the terms of the identity at hand
         (|sum - rhs| <= 1e-9 (sum |terms| + |rhs|)), so every grid is judged at its own scale."""
         dim, nc, nf = res["dim"], res["nc"], res["nf"]
@@ -426,7 +488,10 @@ class C19(Prop):
                 if off([s * nr[f][k] for f, s in ents], 0):
                     return (f"cell {c}: signed face normals, component {k}, sum to "
                             f"{float(sum(s * nr[f][k] for f, s in ents))}")
-            for f, s in ents:
+            # outwardness seen from the cell centre: meaningful for convex cells only (merged
+            # polyhedra may be non-convex, their centre can lie in or behind a face plane; for
+            # them orientation is covered by Gauss with a positive volume)
+            for f, s in (ents if case["kind"] != "tetmerge" else []):
                 out = s * dotp(nr[f], [a - b for a, b in zip(fc[f], cc[c])])
                 if not out > 0:
                     return (f"cell {c}, face {f}: normal with sign {s} does not point out of the "
@@ -494,7 +559,7 @@ class C19(Prop):
     def _coq_case_3d(self, case, res):
         # planar faces only (the model's domain): boxes, frusta, tetrahedra (also perturbed);
         # perturbed hexahedra have twisted faces and stay oracle-only
-        if case["kind"] != "tet" and case.get("perturb", "none") != "none":
+        if case["kind"] not in ("tet", "tetmerge") and case.get("perturb", "none") != "none":
             return None
         q3 = lambda p: f"({qz(p[0])},{qz(p[1])},{qz(p[2])})"
         ip, ix = res["fn_indptr"], res["fn_indices"]
@@ -503,6 +568,8 @@ class C19(Prop):
         cf = clist(res["cf"], lambda e: f"({e[0]}%nat,{e[1]}%nat,({e[2]})%Z)")
         g = (f"{{| k_nodes := {clist(res['nodes'], q3)}; k_faces := {faces}; k_cf := {cf}; "
              f"k_nc := {res['nc']}%nat |}}")
+        if res.get("raised"):
+            return f"agree3 {g} None"
         o = (f"{{| q_area2 := {clist([F(a) ** 2 for a in res['areas']], qz)}; "
              f"q_fc := {clist(res['fc'], q3)}; q_fn := {clist(res['fnrm'], q3)}; "
              f"q_vol := {clist(res['vol'], qz)}; q_cc := {clist(res['cc'], q3)} |}}")
@@ -510,6 +577,9 @@ class C19(Prop):
 
     def nontrivial(self, case, res):
         return res["nc"] > 1 or case["perturb"] != "none"
+
+    def describe(self, case):
+        return case
 
     def finding_key(self, case, res, why):
         return f"geometry-identity-dim{res['dim']}"
